@@ -14,20 +14,24 @@ func init() {
 	pure := func(name string) { libEffTable[name] = noEffect }
 	for _, k := range []string{"golang.org/x/mod/semver.Compare", "go/version.Compare"} {
 		fname := map[bool]string{true: "cmp.semver", false: "cmp.goversion"}[k[2] == 'l']
-		reg(k, "a function of the two strings with values -1, 0, +1, and 0 for equal strings", func(fr *Frame, in ssa.Instruction, st *State, args []Value, rt types.Type) Value {
+		reg(k, "a function of the two strings with values -1, 0, +1, 0 for equal strings, and antisymmetric: Compare(a, b) == -Compare(b, a)", func(fr *Frame, in ssa.Instruction, st *State, args []Value, rt types.Type) Value {
 			B.DeclareFun(fname, []string{SStr, SStr}, SBV(64))
 			r := B.App(fname, SBV(64), sTerm(args[0]), sTerm(args[1]))
 			fr.p.assume(True(), And(BVSle(BVInt(-1, 64), r), BVSle(r, BVInt(1, 64))))
 			fr.p.assume(True(), Implies(Eq(sTerm(args[0]), sTerm(args[1])), Eq(r, BVInt(0, 64))))
+			fr.p.assume(True(), Eq(r, BVNeg(B.App(fname, SBV(64), sTerm(args[1]), sTerm(args[0])))))
 			return Scalar{r}
 		})
 		pure(k)
 	}
 	for _, k := range []string{"golang.org/x/mod/semver.IsValid", "go/version.IsValid"} {
 		fname := map[bool]string{true: "valid.semver", false: "valid.goversion"}[k[2] == 'l']
-		reg(k, "a predicate of the string", func(fr *Frame, in ssa.Instruction, st *State, args []Value, rt types.Type) Value {
-			B.DeclareFun(fname, []string{SStr}, SBool)
-			return Scalar{B.App(fname, SBool, sTerm(args[0]))}
+		reg(k, "a predicate of the string; no string is both a semantic version (which starts with 'v') and a Go version (which starts with \"go\")", func(fr *Frame, in ssa.Instruction, st *State, args []Value, rt types.Type) Value {
+			B.DeclareFun("valid.semver", []string{SStr}, SBool)
+			B.DeclareFun("valid.goversion", []string{SStr}, SBool)
+			a := sTerm(args[0])
+			fr.p.assume(True(), Not(And(B.App("valid.semver", SBool, a), B.App("valid.goversion", SBool, a))))
+			return Scalar{B.App(fname, SBool, a)}
 		})
 		pure(k)
 	}
